@@ -1,5 +1,5 @@
 """C06 -- see DESIGN.md section 4, C06."""
-from . import handlers
+from . import handlers, sqlunits
 
 LEVEL = "other"
 EXPLANATION = "trace obligations of the real handlers (layer L2) selected by the prefix C06/"
@@ -8,4 +8,4 @@ TRUSTED = []
 
 
 def units(tier):
-    return handlers.units_for("C06")
+    return sqlunits.units_for("C06") + handlers.units_for("C06")
